@@ -289,19 +289,25 @@ def universe_unit(rep):
             rep.violation("universe|static", "StaticUniverse(%s) yields %s" % (exp, st.get_assets(ts(base + t))), dict(unit="static"))
     from .engine_clock import parse_tagged
     dt = ts(base)
+    eq_instances, fx_instance = {}, FixedWeightPortfolioOptimiser()    # as in a backtest: ONE optimiser object answers every rebalance, whatever
+    #                                                                    the number of assets it is handed this time (seed C19-a14)
     for sc, ws, es in parse_tagged(r.out, "O"):
         scale = Fraction(sc[0], sc[1])
         weights = dict((names[i], float(Fraction(a, b))) for i, (a, b) in enumerate(ws) if b != 0)
         exp = dict((names[i], Fraction(a, b)) for i, (a, b) in enumerate(es) if b != 0)
         n += 1
         try:
-            got_f = FixedWeightPortfolioOptimiser()(dt, initial_weights=dict(weights))
+            got_f = (fx_instance if n % 2 else FixedWeightPortfolioOptimiser())(dt, initial_weights=dict(weights))
         except Exception as e:
             got_f = "%s: %s" % (type(e).__name__, e)
         if got_f != weights:
             rep.violation("optimiser|fixed", "fixed-weight optimiser returned %s for %s" % (got_f, weights), dict(unit="fixed", weights=weights))
         try:
-            got_e = EqualWeightPortfolioOptimiser(scale=float(scale))(dt, initial_weights=dict(weights))
+            if n % 3 == 0:
+                eq = EqualWeightPortfolioOptimiser(scale=float(scale))
+            else:
+                eq = eq_instances.setdefault(scale, EqualWeightPortfolioOptimiser(scale=float(scale)))
+            got_e = eq(dt, initial_weights=dict(weights))
         except Exception as e:
             rep.violation("optimiser|equal", "equal-weight optimiser (scale %s) raised %s: %s for the non-empty weights %s" % (
                 scale, type(e).__name__, e, weights), dict(unit="equal", weights=weights, scale=str(scale)))
